@@ -98,10 +98,21 @@ def _pe(name):
     return f
 
 
+class Disagree(Exception):
+    pass
+
+
 def ep_artifact(data):
     from dissect.cobaltstrike import artifact
 
-    return [a.offset for a in itertools.islice(artifact.iter_artifactkit_payloads(io.BytesIO(data)), 2000)]
+    fh = io.BytesIO(data)
+    first = [a.offset for a in itertools.islice(artifact.iter_artifactkit_payloads(fh), 2000)]
+    # the documented default (start_offset=0) scans from the start wherever the handle was left
+    fh.seek(0, io.SEEK_END)
+    again = [a.offset for a in itertools.islice(artifact.iter_artifactkit_payloads(fh), 2000)]
+    if again != first:
+        raise Disagree(f"fresh handle: {first[:5]}, same handle positioned at its end: {again[:5]}")
+    return first
 
 
 def ep_http(data):
@@ -165,6 +176,9 @@ def run_ep(acc, fn, data, case):
         else:
             out = "slow"
             acc.count("slow_but_terminating")
+    except Disagree as e:
+        out = "Disagree"
+        acc.fail(f"C08/result-depends-on-handle-position/{name}", dict(case, entry=fn.__name__), "the same result", str(e)[:200])
     except MemoryError:
         out = "MemoryError"
         acc.fail(f"C08/exception/{name}/MemoryError", dict(case, entry=fn.__name__), "result or ValueError", "MemoryError")
@@ -175,6 +189,29 @@ def run_ep(acc, fn, data, case):
         out = type(e).__name__
         acc.fail(f"C08/exception/{name}/{out}", dict(case, entry=fn.__name__), "result or ValueError", f"{out}: {str(e)[:160]}")
     return out
+
+
+def snapshot(eps, data):
+    """Canonical results of every entry point on one input (used to compare the first and the last evaluation of the
+    intact seed within a chunk: a documented result is a function of the input bytes, not of earlier inputs)."""
+    out = []
+    for fn in eps:
+        try:
+            with watchdog(WATCHDOG_S):
+                r = fn(data)
+            if hasattr(r, "settings_tuple"):
+                r = ("BeaconConfig", getattr(r, "xorkey", None), len(r.settings_tuple), getattr(r, "pe_compile_stamp", None), getattr(r, "architecture", None))
+            out.append((fn.__name__, "ok", repr(r)[:300]))
+        except BaseException as e:  # noqa
+            out.append((fn.__name__, type(e).__name__, ""))
+    return out
+
+
+def compare_snapshots(acc, first, last, case):
+    for a, b in zip(first, last):
+        if a != b:
+            acc.fail("C08/result-depends-on-earlier-inputs/" + a[0][3:], dict(case, entry=a[0]), list(a[1:]), list(b[1:]))
+            return
 
 
 def run_input(acc, eps, data, case, key, nontrivial=True):
@@ -231,6 +268,11 @@ def build_seed(name, seed, inner_mut=None, outer_mut=None):
     if name == "plainblock":  # BeaconConfig(block) directly
         blk, fields, win = seed_block()
         return om(im(blk)), fields, {}, win, [ep_block]
+    if name == "pe-pre1000":
+        # the x86 image behind 1000 prepended bytes: every header the helpers validate lies beyond the first KiB
+        data, fields, ofields, win, eps = build_seed("pe-x86", seed, inner_mut, None)
+        outer = b"\x90" * 1000 + data
+        return om(outer), fields, {"prepend_mid": (500, 2), "prepend_last": (998, 2)}, sorted({0, 1000} | {1000 + w for w in win}), eps
     if name in ("pe-x86", "pe-x64", "xor-x86"):
         arch = name[-3:]
         blk = RC.http_block(pad=None)[:600] + b"\x00\x00"
@@ -284,7 +326,7 @@ def build_seed(name, seed, inner_mut=None, outer_mut=None):
     raise ValueError(name)
 
 
-SEEDS = ("rawblock", "plainblock", "pe-x86", "pe-x64", "xor-x86", "guardrails", "guardrails-early", "artifact", "http-request", "http-response")
+SEEDS = ("rawblock", "plainblock", "pe-x86", "pe-x64", "pe-pre1000", "xor-x86", "guardrails", "guardrails-early", "artifact", "http-request", "http-response")
 GUARD_WINDOW = list(range(6120, 6150)) + [0, 1, 5, 6, 100, 3000, 6000]
 
 
@@ -302,7 +344,7 @@ def alternatives(orig: bytes, endian):
 
 
 def endian_for(seedname, layer, field):
-    if seedname in ("pe-x86", "pe-x64", "xor-x86") and layer == "inner" and not field.startswith("cfg_"):
+    if seedname in ("pe-x86", "pe-x64", "xor-x86", "pe-pre1000") and layer == "inner" and not field.startswith("cfg_"):
         return "little"
     if seedname == "artifact" or (layer == "outer" and field in ("size", "nonce")):
         return "little"
@@ -345,7 +387,9 @@ def apply_devs(seedname, seed, devs):
 def plan(tier, seed):
     ch = []
     for s in SEEDS:
-        ch.append({"key": f"dev1/{s}", "kind": "dev", "seedname": s, "k": 1, "part": 0, "parts": 1, "cost": 3000 if s.startswith(("pe", "xor")) else 600})
+        dparts = 6 if s == "pe-pre1000" else 1
+        for dp in range(dparts):
+            ch.append({"key": f"dev1/{s}" + (f"/{dp}" if dparts > 1 else ""), "kind": "dev", "seedname": s, "k": 1, "part": dp, "parts": dparts, "cost": 3000 if s.startswith(("pe", "xor")) else 600})
         parts = 8 if s.startswith(("pe", "xor", "guard")) else 2
         for p in range(parts):
             ch.append({"key": f"trunc/{s}/{p}", "kind": "trunc", "seedname": s, "part": p, "parts": parts, "cost": 1500 if s.startswith(("pe", "xor", "guard")) else 200})
@@ -369,10 +413,13 @@ def chunk_dev(chunk, acc):
     pts = deviation_points(s, acc.seed)
     k = chunk["k"]
     n = 0
+    first = None
     if k == 1:
         data, eps = apply_devs(s, acc.seed, ())
         acc.states += 1
         run_input(acc, eps, data, {"kind": "dev", "seedname": s, "devs": [], "seed": acc.seed}, (s, ()), nontrivial=True)
+        intact, intact_eps = data, eps
+        first = snapshot(eps, data)
     for devs in deviation_sets(pts, k):
         if len(devs) != k:
             continue
@@ -388,6 +435,8 @@ def chunk_dev(chunk, acc):
         acc.states += 1
         data, eps = apply_devs(s, acc.seed, devs)
         run_input(acc, eps, data, {"kind": "dev", "seedname": s, "devs": [list(d) for d in devs], "seed": acc.seed}, (s, devs))
+    if first is not None:
+        compare_snapshots(acc, first, snapshot(intact_eps, intact), {"kind": "dev", "seedname": s, "devs": [], "seed": acc.seed, "after": "all single deviations"})
     acc.sample({"seed_artefact": s, "deviation_points": len(pts), "k": k, "example": list(pts[len(pts) // 2]) if pts else None})
 
 
@@ -405,11 +454,15 @@ def chunk_trunc(chunk, acc):
     else:
         cuts |= set(range(0, len(data) + 1, 64))
     cuts = sorted(cuts)
+    # the intact input first (and once more at the end): truncated copies share a long prefix with it
+    run_input(acc, eps, data, {"kind": "trunc", "seedname": s, "cut": len(data), "seed": acc.seed}, (s, "intact"))
+    first = snapshot(eps, data)
     for i, cut in enumerate(cuts):
         if i % chunk["parts"] != chunk["part"]:
             continue
         acc.states += 1
         run_input(acc, eps, data[:cut], {"kind": "trunc", "seedname": s, "cut": cut, "seed": acc.seed}, (s, cut), nontrivial=cut > 0)
+    compare_snapshots(acc, first, snapshot(eps, data), {"kind": "trunc", "seedname": s, "cut": len(data), "seed": acc.seed, "after": "truncated copies"})
     if mode != "all":
         acc.count("truncation_points_not_run", len(data) + 1 - len(cuts))
     acc.sample({"seed_artefact": s, "length": len(data), "truncation_points": len(cuts), "windows": win[:8]})
